@@ -87,7 +87,7 @@ def unit_c19(args):
             order = list(probes)
             rng.shuffle(order)
             order = cluster(order, rng)
-            got = run_child(dict(numpy=use_np, repo=env.REPO, history=hist, probes=order))
+            got = run_child(dict(numpy=use_np, repo=env.REPO, history=hist, probes=order, order_seed=seed * 131 + h))
             n += 1
             for tmp, static, probe, want, have in analog_problems(got):
                 if not res["violations"]:
@@ -95,7 +95,7 @@ def unit_c19(args):
                         props=["C19"], fam="json", kind="c19", sig="C19:dynamic-class:" + probe, ops=None,
                         msg="%s on a value of a class created on the fly (%s) gives %r, on the equivalent long-lived class (%s) %r, after processing %s" % (
                             probe, tmp, have, static, want, hist),
-                        extra=dict(seed=seed, numpy=use_np, history=hist, probes=order, value=tmp, probe=probe, analog=static)))
+                        extra=dict(seed=seed, numpy=use_np, history=hist, probes=order, value=tmp, probe=probe, analog=static, order_seed=seed * 131 + h)))
             for name in probes:
                 if name in ANALOG:
                     continue       # judged against its analog above (fresh classes differ in name only)
@@ -106,7 +106,7 @@ def unit_c19(args):
                             props=["C19"], fam="json", kind="c19", sig="C19:" + probe, ops=None,
                             msg="%s on a %s value gives %r in a fresh process but %r after processing %s (and the probes before it)" % (
                                 probe, name, want, have, hist),
-                            extra=dict(seed=seed, numpy=use_np, history=hist, probes=order, value=name, probe=probe)))
+                            extra=dict(seed=seed, numpy=use_np, history=hist, probes=order, value=name, probe=probe, order_seed=seed * 131 + h)))
         res["steps"] = n
         res["stats"] = {"histories": n, "pool": len(pool), "probes_per_history": len(probes) * 12}
     except Exception:  # noqa: BLE001
